@@ -73,4 +73,10 @@ var registry = []prop{
 		Thor:   tierCfg{Shards: 16, Scale: 10, TimeoutS: 1500},
 		Assume: []string{"update indices are >= 0", "the geometry clause is judged only for fully annotated ways (every node and update has version >= 1 and a location other than (0,0)) with all indices in range", "composition is judged only when each child's updates appear in time order in the stored list"},
 	},
+	{
+		ID: "C18", Pkg: "props/c18", Level: "exploration",
+		Quick:  tierCfg{Shards: 1, Scale: 1, TimeoutS: 300},
+		Thor:   tierCfg{Shards: 8, Scale: 20, TimeoutS: 1500},
+		Assume: []string{"the harness embeds its own transcription of the published Overpass-turbo polygon-features table (26 keys; the published area key is the area-tag rule)", "tag sets have unique keys"},
+	},
 }
